@@ -5,7 +5,7 @@
   returned on.
 -/
 import Babylon.Exec.Inv3
-import Babylon.Exec.Inv2Pres
+import Babylon.Exec.Inv2b
 
 namespace Babylon.Exec
 open Babylon.Core
@@ -25,18 +25,30 @@ theorem pastB_markChain (c : Cfg) (n : Nat) : (markChain c n).pastB = true := by
   | zero => simp only [markChain]; split <;> rfl
   | succ n ih => simpa [markChain, Pc.pastB] using ih
 
-theorem contOK_stop_role (c : Cfg) (k : Pc) (h : ContOK c (some .stop) k) : k.role = .stopper ∧ k.pastB = true := by
-  cases k <;> simp [ContOK] at h
-  all_goals (obtain ⟨n, hn⟩ := h; rw [hn]; exact ⟨markChain_role c n, pastB_markChain c n⟩)
+/-- a continuation of a push of `STOP` that is not the balance thread's is the chain of `stop()` -/
+theorem contOK_stop_role (c : Cfg) (k : Pc) (h : ContOK c (some .stop) k) (hb : ∀ k', k ≠ .bSweep k') :
+    k.role = .stopper ∧ k.pastB = true := by
+  have hk : ∃ n, k = markChain c n := by
+    cases k <;> first
+      | exact h.2
+      | (exfalso; simp [ContOK] at h; done)
+      | (exfalso; exact hb _ rfl)
+  obtain ⟨n, hn⟩ := hk
+  rw [hn]; exact ⟨markChain_role c n, pastB_markChain c n⟩
+
+theorem pastB_cont (c : Cfg) (x : Option Item) (k : Pc) (h : ContOK c x k) (hp : k.pastB = true) : k.role = .stopper := by
+  have hk : ∃ n, k = markChain c n := by
+    cases k <;> first
+      | exact h.2
+      | (exfalso; simp [Pc.pastB] at hp; done)
+  obtain ⟨n, hn⟩ := hk
+  rw [hn]; exact markChain_role c n
 
 theorem pastB_role (c : Cfg) (p : Pc) (hwf : PcWF c p) (h : p.pastB = true) : p.role = .stopper := by
-  cases p <;> simp [Pc.pastB] at h <;> try rfl
-  all_goals
-    (rename_i k
-     have hc : ∃ x, ContOK c x k := ⟨_, hwf⟩
-     obtain ⟨x, hc⟩ := hc
-     cases k <;> simp [Pc.pastB, ContOK] at h hc ⊢ <;> try rfl
-     all_goals (obtain ⟨_, n, hn⟩ := hc; simp only [Pc.role]; rw [hn]; exact markChain_role c n))
+  cases p <;> first
+    | rfl
+    | (exfalso; simp [Pc.pastB] at h; done)
+    | exact pastB_cont c _ _ hwf (by simpa [Pc.pastB] using h)
 
 theorem pastB_dispatchPc (x : Item) : (dispatchPc x).pastB = false := by cases x <;> rfl
 theorem pastB_claimPc (ctx : PopCtx) (x : Item) : (claimPc ctx x).pastB = false := by cases ctx <;> cases x <;> rfl
